@@ -32,6 +32,13 @@ def check(ctx):
     from .c04 import check_all_steps_and_storage
 
     check_all_steps_and_storage(ctx, "C01-g", "C01-f")
+    # C01-h: the initial value the solver starts from and clips to is m_scaled_func(p_i) (a sorted, raising lookup);
+    # C01-i: no interpolator of the flow-property wrapper assumes a sorted table
+    from .c09 import check_initial_value
+    from .common import check_interp_options
+
+    check_initial_value(ctx, "C01-h", "C01-h", classes=("FlowProperties",))
+    check_interp_options(ctx, "C01-i", ["bluebonnet.flow.flowproperties"], 5)
     ctx.floor("C01", len(ctx.obligs), 12, "maximum-principle obligations")
 
 
@@ -78,10 +85,43 @@ def check_assembly(ctx, rule, exact=False):
             )
 
 
+def _zero_increment(poly):
+    """poly is +-(time[a] - time[b]): an exact test of a zero time increment"""
+    if len(poly) != 2:
+        return False
+    (m1, c1), (m2, c2) = poly.items()
+    if {c1, c2} != {1, -1}:
+        return False
+    for m in (m1, m2):
+        if len(m) != 1 or m[0][0][0] != "fn" or m[0][0][1] != "[]" or nf.unkey(m[0][0][2][0]) != nf.sym("time") or m[0][1] != nf.KONE:
+            return False
+    return True
+
+
+def _unsolved_step(ctx, it, f, cls, p):
+    """a partition of the time loop that stores a level without solving the step's system: admissible only under an
+    exact test that the step's increment is zero (backward Euler with dt == 0 is the identity)"""
+    tag = ", ".join(("" if c else "not ") + d[:60] for _k, c, d in p.decisions if not d.startswith("hasattr"))
+    exact = any(k[0] == "eq" and c and _zero_increment(nf.unkey(k[1])) for k, c, _d in p.decisions if isinstance(k, tuple) and len(k) == 2 and k[0] == "eq")
+    key = (cls, tag)
+    seen = ctx.__dict__.setdefault("_unsolved_seen", set())
+    if key in seen:
+        return
+    seen.add(key)
+    ctx.check(
+        exact, f"{ctx.prop}-s", RES + f"{cls}.simulate:step without a solve [{tag}]", f.where(),
+        "every time level is the solution of that step's backward-Euler system; a step is copied without a solve only under an exact test that its increment is zero (a tolerance test such as np.isclose depends on the absolute time and drops small steps)",
+        signature="step not solved", decisions=[d for _k, _c, d in p.decisions],
+    )
+
+
 def _step(ctx, cls):
     it, f, parts = sim_step(ctx, cls)
     out = []
     for p, sol in parts:
+        if len(sol) == 0 and any(e.kind == "for_iter" for e in p.events):
+            _unsolved_step(ctx, it, f, cls, p)
+            continue
         if len(sol) != 1:
             raise AnalysisError(f"{cls}.simulate: expected one linear solve per step, found {len(sol)}")
         A, b = solver_inputs(sol[0])
